@@ -23,6 +23,8 @@ def scn_proto(ctx):
     eps = ctx.eps
     ev = ctx.ev
     kinds = ["value", "error"] + (["cancel"] if p.get("input_cancel") else [])
+    if p.get("kinds_only"):
+        kinds = list(p["kinds_only"])
     kind = kinds[ctx.choice(len(kinds), "kind")]
     e = entries.build(ctx, name)
     f = e.fut
@@ -174,6 +176,10 @@ def plan(tier, seed):
                               bounds=dict(P=(1 if heavy else 2) if tier == "quick" else (2 if heavy else 3), post_release=True)))
     # line mode: every source line of the future classes is a scheduling point, so that a completion can
     # land between a check of an attribute and its use inside cancel()
+    # the underlying (delegate) future is cancelled by someone else while cancel() is called on the derived future
+    for n in ("retry", "map", "poll", "throttle", "timeout", "flat_map", "cancel_on_shutdown"):
+        items.append(dict(scenario="proto", params=dict(entry=n, fixA=["cancel"], fixB=["cb"], input_cancel=True, kinds_only=["cancel"]),
+                          bounds=dict(P=1 if tier == "quick" else 2, post_release=True)))
     lm = [("map", ["_impl/map.py"]), ("f_map", ["_impl/map.py"])]
     if tier != "quick":
         lm += [("timeout", ["_impl/map.py", "_impl/common.py"]), ("throttle", ["_impl/throttle.py", "_impl/map.py"]),
